@@ -214,6 +214,19 @@ CLAIMED = {
              "its Horner polyval validated against NumPy); rank > 1; reads through tags (same "
              "DataView path as C08). Counterexamples are replayed with real floats on a real file.",
         ref="3 C15"),
+    "C02": dict(
+        text="PARTIAL. nixio keeps no state of its own: after any two operations from a table of 38 API "
+             "calls (set / clear attributes, write / assign / append data, create, delete, link, "
+             "unlink, dimension changes; applied through long-lived handles that had been read from "
+             "before, or through second handles of the same entities), the complete observable state "
+             "(every entity kind, attributes, timestamps, data, descriptors, links, order) read "
+             "through the session's long-lived handles equals the state read through a freshly opened "
+             "File on the same store, read-only and read-write, and again after the session closed.",
+        note="NOT decided: that libhdf5 returns after close + reopen what it was given (in fakeh5 a "
+             "reopen attaches to the same in-memory store; the real-stack replay of a counterexample "
+             "does a real close + reopen). Histories of two operations on one fixture; quick tier uses "
+             "every third operation as the first step, thorough all 38.",
+        ref="12 (as built)"),
     "C04": dict(
         text="PARTIAL. On a fixture with a rich link topology (two blocks with equal entity names; one "
              "array linked from a group, a tag's references and feature, a multi-tag's positions / "
@@ -252,11 +265,6 @@ CLAIMED = {
 }
 
 NOT_APPLICABLE = {
-    "C02": "Solver-based checking not applicable: that close+reopen reproduces the state is decided by "
-           "libhdf5's persistence (C code behind FFI, cannot be executed symbolically here; an in-memory "
-           "stand-in would assume the property). nixio's share - no write-back cache, every setter goes "
-           "straight to the backend - has no symbolic variable to quantify over; it is exercised as a "
-           "by-product of C12/C19/C05 but that is not this property.",
     "C16": "Solver-based checking not applicable: every data-frame operation is NumPy structured-array / "
            "HDF5 compound-type manipulation behind C boundaries (CrossHair concretises there); in "
            "addition the data-frame code does not run with the installed NumPy 2.x (all data-frame "
